@@ -90,7 +90,7 @@ def gen_F(r, maxlen, nkeys):
 def gen_P(r, maxlen, nnames):
     ops = []
     for _ in range(r.randint(1, maxlen)):
-        n = r.randint(1, nnames)
+        n = r.randint(1, nnames) if r.random() < 0.9 else r.randint(5, 7)   # 5..7: long (heap-allocated) names
         c = r.random()
         if c < 0.30: ops.append("set:%d:%d:%d" % (n, r.randint(0, 3), r.randint(1, 99)))
         elif c < 0.62: ops.append("get:%d:%d:%d" % (n, r.randint(0, 3), r.randint(100, 199)))
